@@ -73,7 +73,7 @@ pub fn c13(opts: &Opts) -> Report {
             let special = i % 40 == 19;
             let debug = if special { ((i / 40) / 11) % 2 == 0 } else { ctx.rng.chance(1, 4) && !slow_case }; let quiet = ctx.rng.chance(1, 4) && !special; let validate = ctx.rng.chance(1, 6) && !dash_case && !slow_case && !special;
             let tmode = if dash_case || slow_case { 0 } else if special && tpl.contains('\n') { 6 } else { ctx.rng.below(10) };   // 0-5 arg, 6-7 file, 8 unreadable file, 9 both
-            let imode = if dash_case { 0 } else if slow_case { 4 } else { ctx.rng.below(10) };   // 0-3 arg, 4-6 stdin, 7 file, 8 unreadable, 9 both
+            let imode = if dash_case { 0 } else if slow_case { 4 } else if i % 40 == 15 { ctx.rng.below(10); 7 } else { ctx.rng.below(10) };   // a byte-order mark first: through an input FILE   // 0-3 arg, 4-6 stdin, 7 file, 8 unreadable, 9 both
             let tfile = dir_ref.join(format!("t{}", i)); let ifile = dir_ref.join(format!("i{}", i));
             let tpad_l = ws_tail(&mut ctx.rng); let tpad_r = ws_tail(&mut ctx.rng);
             let mut cmd = Command::new(&bin);
